@@ -15,7 +15,7 @@ pub fn prop() -> Prop {
         rule: "streams of <=2 values over the 75-value universe U1 and <=3 (thorough <=4) over a 12-value core, every legal separator (whitespace menu or touching), spelling deviations k=0,1 (thorough 2) per value from the whitespace/escape/number menus; non-trivial = >=2 values, or a non-default spelling, or touching tokens; cases are distinct by construction",
         explanation: "bounded-exhaustive enumeration of conforming serialisations; jawk (no options) is run on each and stdout is read back with an independent strict RFC 8259 reader and compared value by value with the reference parse of the input",
         assumptions,
-        guards: vec!["size-thresholds", "touching-tokens", "upper-case-exponent", "escape-variant", "multi-value", "depth-64"],
+        guards: vec!["decimal-grid", "size-thresholds", "touching-tokens", "upper-case-exponent", "escape-variant", "multi-value", "depth-64"],
         budget_s: (100, 1500),
         single_worker: false,
         run,
@@ -461,4 +461,43 @@ fn run(ctx: &mut Ctx) {
         }
     }
     ctx.level_done("F:size-thresholds(strings,containers,streams-to-8193;numbers-to-400-digits)");
+
+    // level G: the decimal grid. Every mantissa of a fixed list (1..19 significant digits) at every power of ten the
+    // double range knows, in two spellings, 128 numbers per run: "every other number as the nearest double".
+    const MANTISSAS: [&str; 36] = [
+        "1", "5", "9", "17", "25", "123", "4096", "65536", "99999", "123456", "1048577", "16777217", "123456789", "4294967297", "99999999999", "5099773314186",
+        "123456789012", "9007199254740991", "9007199254740993", "3141592653589793", "2718281828459045", "1414213562373095", "6931471805599453", "4503599627370497",
+        "7205759403792794", "1152921504606847", "95022394968265", "1238019611496455", "99999999999999999", "18014398509481985", "123456789012345678", "9223372036854775807",
+        "9223372036854775809", "18446744073709551615", "1844674407370955161", "5764607523034234881",
+    ];
+    for (mi, m) in MANTISSAS.iter().enumerate() {
+        if !ctx.mine() {
+            continue;
+        }
+        ctx.guard("decimal-grid");
+        let mut batch: Vec<String> = Vec::new();
+        let mut flush = |ctx: &mut Ctx, batch: &mut Vec<String>| {
+            if batch.is_empty() {
+                return;
+            }
+            let vals: Vec<V> = batch.iter().map(|l| json::parse_str(l)).collect();
+            let refs: Vec<&V> = vals.iter().collect();
+            let text = batch.join(if mi % 2 == 0 { " " } else { "\n" });
+            check(ctx, text, &refs, true);
+            batch.clear();
+        };
+        for e in -345i32..=310 {
+            let spellings = [format!("{m}e{e}"), if m.len() > 1 { format!("-{}.{}E{}{e}", &m[..1], &m[1..], if e >= 0 { "+" } else { "" }) } else { format!("-{m}.0E{e}") }];
+            for l in spellings {
+                if l.parse::<f64>().map(|f| f.is_finite()).unwrap_or(false) {
+                    batch.push(l);
+                    if batch.len() == 128 {
+                        flush(ctx, &mut batch);
+                    }
+                }
+            }
+        }
+        flush(ctx, &mut batch);
+    }
+    ctx.level_done("G:decimal-grid(36-mantissas-x-every-exponent--345..310-x-2-spellings)");
 }
